@@ -13,6 +13,9 @@ from cayleypy import GapPuzzles, Puzzles  # noqa: E402
 from cayleypy.puzzles import gap_puzzles as gp  # noqa: E402
 from cayleypy.puzzles.hungarian_rings import get_group  # noqa: E402
 
+# theorems `regenerated globe.py = specification` (CvProps/C16g.lean; translator harness/extract/pylean.py)
+GEN_THEOREMS = []
+
 THEOREMS = [
     "Cv.C16.fromCycles_toCycles",
     "Cv.C16.parse_print",
@@ -391,6 +394,10 @@ def main():
     ck = Check("C16")
     rng = ck.rng
     ck.lean_obligations("CvProps.C16", THEOREMS)
+    if not ck.replay:
+        from cv.pygen_corr import gen_tie  # noqa: E402
+
+        gen_tie(ck, "C16g", GEN_THEOREMS, ("globe",))
     if ck.replay:
         body = json.load(open(os.path.join(VERIF, ck.replay) if not os.path.isabs(ck.replay) else ck.replay))
         c = body["case"]
